@@ -18,6 +18,7 @@ import SpiceEv.Cmd.Strategies
 import SpiceEv.Cmd.RuleSpec
 import SpiceEv.Cmd.Distributed
 import SpiceEv.Cmd.StratDistributed
+import SpiceEv.Cmd.StratDistributedRun
 import SpiceEv.Cmd.FlexBand
 import SpiceEv.Cmd.StratPeakShaving
 import SpiceEv.Cmd.StratFlexWindow
@@ -38,6 +39,7 @@ def allHandlers : List (String × Handler) :=
   ++ Cmd.RuleSpec.handlers
   ++ Cmd.Distributed.handlers
   ++ Cmd.StratDistributed.handlers
+  ++ Cmd.StratDistributedRun.handlers
   ++ Cmd.FlexBand.handlers
   ++ PeakShaving.Cmd.handlers
   ++ Cmd.StratFlexWindow.handlers
